@@ -175,6 +175,77 @@ func Narrow(p *core.Prog, r *core.Report) {
 			}
 		})
 	}
+	// NATIVE-DISPATCH: evaluated (constant propagation over the kind of the datum, nothing runs) for each Go
+	// numeric carrier type separately, every facade must reach the comparator of the matching exact arithmetic:
+	// signed kinds the int64 one, unsigned kinds the uint64 one, floats only the float64 one. A kind that falls
+	// through to the float64 comparator (a half-open range `kind < reflect.Uint64`, a case list missing one
+	// kind) is compared with a division and a relative tolerance: the verdict depends on the carrier type.
+	{
+		na := newNilAn(p)
+		nDisp := 0
+		carriers := []struct {
+			a    atom
+			want string
+		}{
+			{aInt, "int64"}, {aInt8, "int64"}, {aInt16, "int64"}, {aInt32, "int64"}, {aInt64, "int64"},
+			{aUint, "uint64"}, {aUint8, "uint64"}, {aUint16, "uint64"}, {aUint32, "uint64"}, {aUint64, "uint64"},
+			{aFloat32, "float64"}, {aFloat64, "float64"},
+		}
+		for _, fname := range []string{"MaximumNativeType", "MinimumNativeType", "MultipleOfNativeType"} {
+			f := p.Func(fname)
+			if f == nil || len(f.Params) < 3 {
+				r.Unk(rule, "native-dispatch:"+fname, "-", "facade not found")
+				continue
+			}
+			var wrong []string
+			for _, cr := range carriers {
+				di := newRegionInterp(p, na)
+				args := make([]aval, len(f.Params))
+				for k := range args {
+					args[k] = top
+				}
+				args[2] = dyn(cr.a)
+				di.run(f, args, 0)
+				got := map[string]bool{}
+				for _, t := range di.trace {
+					name := t.callee
+					if k := strings.LastIndex(name, "."); k >= 0 && !strings.HasPrefix(name, "(") {
+						name = name[k+1:]
+					}
+					g := p.Func(name)
+					if g == nil || g == f || g.Signature.Recv() != nil || len(g.Params) < 3 || g.Signature.Results().Len() != 1 {
+						continue
+					}
+					if !strings.HasSuffix(g.Signature.Results().At(0).Type().String(), "errors.Validation") {
+						continue
+					}
+					if b := basicOf(g.Params[2].Type()); b != nil {
+						got[b.Name()] = true
+					}
+				}
+				nDisp++
+				bad := ""
+				switch {
+				case !got[cr.want]:
+					bad = "never reaches the " + cr.want + " comparator"
+				case cr.want == "int64" && got["uint64"], cr.want == "uint64" && got["int64"]:
+					bad = "reaches the comparator of the other signedness"
+				case cr.want == "float64" && (got["int64"] || got["uint64"]):
+					bad = "reaches an integer comparator"
+				}
+				if bad != "" {
+					wrong = append(wrong, cr.a.String()+" "+bad)
+				}
+			}
+			if len(wrong) > 0 {
+				r.Bad(rule, "native-dispatch:"+fname, p.Pos(f.Pos()), fname+" does not dispatch every Go numeric kind to its exact arithmetic: "+strings.Join(wrong, "; ")+" — such values are compared as float64 (division and relative tolerance for multipleOf, rounding above 2^53), so the verdict depends on the Go type carrying the number")
+			} else {
+				r.OK(rule, "native-dispatch:"+fname, p.Pos(f.Pos()), "each of the 12 numeric carrier kinds reaches the comparator of its own exact arithmetic")
+			}
+		}
+		r.Count("native_dispatch_cases", nDisp)
+		r.Floor("native_dispatch_cases", 36)
+	}
 	r.Count("native_facade_calls", nNative)
 	r.Floor("native_facade_calls", 3)
 	r.Count("numeric_conversions", total)
